@@ -18,7 +18,8 @@
     * `noDup`      — non-volatile: no non-reminder Problem to a user for the state of the Problem that user
                      was sent last, without a Recovery in between.
     * `reminder`   — reminders only from the timer, only in a hard problem state that is neither
-                     suppressed nor flapping, at least `interval` after the last (unforced) Problem of the
+                     suppressed nor flapping, never while the initial Problem is still held back (on the
+                     checkable after a suppression, or on the notification object after a closed period), at least `interval` after the last (unforced) Problem of the
                      same notification object, and with `interval ≤ 0` none after a Problem until another
                      notification type or a Recovery is processed.  The last two are stated for stretches
                      without a hard state change (`last_hard_state_change` unchanged) and with a clock
@@ -35,15 +36,17 @@ structure Obs where
   kind : OpKind
   env : Env
   events : List Event
+  heldAfter : Bool   -- after the operation the notification object still holds back a Problem (suppressed_notifications)
   deriving Repr
 
 inductive Clause
-  | enableFlags | paused | notifPeriod | notifTypeFilter | notifStateFilter | timesWindow | userFilters
+  | forceClaim | enableFlags | paused | notifPeriod | notifTypeFilter | notifStateFilter | timesWindow | userFilters
   | recoveryAckRecipients | duplicateProblem
-  | reminderOnlyFromTimer | reminderCond | reminderSpacing | reminderInterval0
+  | reminderOnlyFromTimer | reminderCond | reminderBeforeHeld | reminderSpacing | reminderInterval0
   deriving Repr, DecidableEq
 
 def Clause.name : Clause → String
+  | .forceClaim => "forced_only_if_force_next_notification_was_set"
   | .enableFlags => "delivery_only_if_enabled_globally_and_for_checkable"
   | .paused => "paused_notification_object_sends_nothing"
   | .notifPeriod => "delivery_only_if_notification_period_open"
@@ -55,11 +58,9 @@ def Clause.name : Clause → String
   | .duplicateProblem => "no_duplicate_problem_for_same_state"
   | .reminderOnlyFromTimer => "reminder_only_from_timer_and_of_type_problem"
   | .reminderCond => "reminder_only_in_hard_unsuppressed_nonflapping_problem"
+  | .reminderBeforeHeld => "no_reminder_while_the_initial_problem_is_held_back"
   | .reminderSpacing => "reminder_at_least_interval_after_last_problem"
   | .reminderInterval0 => "interval_zero_no_reminder_after_problem"
-
-/-- Was the notification forced?  Only `SendNotifications` can force (force_next_notification). -/
-def forceOf (k : OpKind) (e : Env) : Bool := k == .send && e.force
 
 /-- Process the events of one operation in order; stop at the first violated clause. -/
 def evFold {G : Type} (f : G → Event → Option Clause × G) : G → List Event → Option Clause × G
@@ -87,10 +88,15 @@ def userAdmits (c : Cfg) (e : Env) (ty : NType) (force : Bool) (uid : Nat) : Boo
 def pausedFor (k : OpKind) (e : Env) : Bool :=
   match k with | .send => e.paused | .tick => e.paused && e.haSkip
 
+/-- `ev.force`: the request the event stems from was forced.  A request processed by `SendNotifications` at
+    once is forced iff force_next_notification was set; a forced event in a timer run stems from a stashed
+    forced request (cold start).  The timer does not run at all for a checkable whose notifications are
+    switched off, so the enable flags hold for everything it sends. -/
 def deliveryEv (c : Cfg) (k : OpKind) (e : Env) (_ : Unit) (ev : Event) : Option Clause × Unit :=
-  let force := forceOf k e
+  let force := ev.force
   (if !ev.passed then none
-   else if !force && !(e.globalEnabled && e.ckEnabled) then some .enableFlags
+   else if force && k == .send && !e.force then some .forceClaim
+   else if (!force || k == .tick) && !(e.globalEnabled && e.ckEnabled) then some .enableFlags
    else if pausedFor k e then some .paused
    else if !force && !e.periodOpen then some .notifPeriod
    else if !force && !admits c.typeFilter ev.ty.bit then some .notifTypeFilter
@@ -108,14 +114,14 @@ def notSubscribed (e : Env) (uid : Nat) : Bool :=
 /-- A Recovery that is merely withheld: unforced, while the notification period is closed.  It does not end
     the incident — it is kept and re-sent later to exactly the users of the incident (or neutralised by a new
     Problem, in which case those users were never told that the problem ended). -/
-def recoveryWithheld (k : OpKind) (e : Env) : Bool := !forceOf k e && !e.periodOpen
+def recoveryWithheld (e : Env) (ev : Event) : Bool := !ev.force && !e.periodOpen
 
 /-- `ps`: users sent a Problem for the current incident, i.e. since the last Recovery the notification object
     processed (sent to its users, or discarded by its type filter). -/
-def recipientsEv (k : OpKind) (e : Env) (ps : List Nat) (ev : Event) : Option Clause × List Nat :=
+def recipientsEv (e : Env) (ps : List Nat) (ev : Event) : Option Clause × List Nat :=
   (if ev.passed && (ev.ty == .recovery || ev.ty == .ack) &&
       !ev.users.all (fun uid => ps.contains uid || notSubscribed e uid) then some .recoveryAckRecipients else none,
-   if ev.ty == .recovery then (if !ev.passed && recoveryWithheld k e then ps else [])
+   if ev.ty == .recovery then (if !ev.passed && recoveryWithheld e ev then ps else [])
    else if ev.ty == .problem && ev.passed then ev.users ++ ps else ps)
 
 /-! ### noDup (second sentence, second half) -/
@@ -161,15 +167,27 @@ def reminderEv (c : Cfg) (k : OpKind) (e : Env) (g : RemSt) (ev : Event) : Optio
   (if !ev.reminder then none
    else if !(k == .tick && ev.ty == .problem) then some .reminderOnlyFromTimer
    else if !remCondOk e then some .reminderCond
+   else if e.ckProblemPending then some .reminderBeforeHeld
    else if !remSpacingOk c e g then some .reminderSpacing
    else if !remInterval0Ok c g then some .reminderInterval0
    else none,
    if !ev.passed then { g with quiet := false }
-   else if ev.ty == .problem then (if forceOf k e then g else { lastProb := some (e.now, e.lhsc), quiet := true })
+   else if ev.ty == .problem then (if ev.force then g else { lastProb := some (e.now, e.lhsc), quiet := true })
    else if ev.ty == .custom then g
    else { g with quiet := false })
 
-/-! ### the four checkers over a trace, and their conjunction -/
+/-- A reminder never overtakes the initial Problem: not while the checkable still holds one back (clause in
+    `reminderEv`: the pending bit of the checkable is an environment fact), and not while the notification
+    object itself holds one back because its period was closed — after an operation that sent a reminder the
+    object holds no Problem back. -/
+def heldObs (o : Obs) : Option Clause :=
+  if o.heldAfter && o.events.any (fun ev => ev.reminder) then some .reminderBeforeHeld else none
+
+def heldTrace : List Obs → Option Clause
+  | [] => none
+  | o :: rest => match heldObs o with | some cl => some cl | none => heldTrace rest
+
+/-! ### the checkers over a trace, and their conjunction -/
 
 /-- Run a checker (bookkeeping `G`, one step per observed operation) over a trace. -/
 def runTrace {G : Type} (step : G → Obs → Option Clause × G) : G → List Obs → Option Clause
@@ -180,7 +198,7 @@ def runTrace {G : Type} (step : G → Obs → Option Clause × G) : G → List O
     | (none, g') => runTrace step g' rest
 
 def deliveryObs (c : Cfg) (g : Unit) (o : Obs) : Option Clause × Unit := evFold (deliveryEv c o.kind o.env) g o.events
-def recipientsObs (ps : List Nat) (o : Obs) : Option Clause × List Nat := evFold (recipientsEv o.kind o.env) ps o.events
+def recipientsObs (ps : List Nat) (o : Obs) : Option Clause × List Nat := evFold (recipientsEv o.env) ps o.events
 def noDupObs (ls : Nat → Option Nat) (o : Obs) : Option Clause × (Nat → Option Nat) := evFold (noDupEv o.env) ls o.events
 def reminderObs (c : Cfg) (g : RemSt) (o : Obs) : Option Clause × RemSt :=
   evFold (reminderEv c o.kind o.env) (remValidate o.env g) o.events
@@ -200,7 +218,10 @@ def specTrace (c : Cfg) (tr : List Obs) : Option Clause :=
     | none =>
       match noDupTrace tr with
       | some cl => some cl
-      | none => reminderTrace c tr
+      | none =>
+        match reminderTrace c tr with
+        | some cl => some cl
+        | none => heldTrace tr
 
 /-- Incremental form used by the driver (one operation at a time; same checkers, same bookkeeping). -/
 structure SpecSt where
@@ -213,7 +234,7 @@ def specStep (c : Cfg) (sp : SpecSt) (o : Obs) : List Clause × SpecSt :=
   let r := recipientsObs sp.ps o
   let n := noDupObs sp.ls o
   let m := reminderObs c sp.rem o
-  (d.1.toList ++ r.1.toList ++ n.1.toList ++ m.1.toList, { ps := r.2, ls := n.2, rem := m.2 })
+  (d.1.toList ++ r.1.toList ++ n.1.toList ++ m.1.toList ++ (heldObs o).toList, { ps := r.2, ls := n.2, rem := m.2 })
 
 /-! ### the model's trace -/
 
@@ -225,8 +246,8 @@ inductive Op
   deriving Repr
 
 def applyOp (c : Cfg) (s : St) : Op → St × Obs
-  | .send ty e => let r := sendStep c s ty e; (r.1, ⟨.send, e, r.2⟩)
-  | .tick e => let r := tickStep c s e; (r.1, ⟨.tick, e, r.2⟩)
+  | .send ty e => let r := sendStep c s ty e; (r.1, ⟨.send, e, r.2, r.1.sup.problem⟩)
+  | .tick e => let r := tickStep c s e; (r.1, ⟨.tick, e, r.2, r.1.sup.problem⟩)
 
 def traceOf (c : Cfg) : St → List Op → List Obs
   | _, [] => []
